@@ -76,6 +76,111 @@ struct AFont {
     hvar: Option<MetricsVar>,
     vvar: Option<MetricsVar>,
     gvar: Option<GvarInfo>,
+    /// per glyph: byte length of what klippa's subset_glyph keeps of it (with instructions, under NO_HINTING),
+    /// computed here from the original's raw bytes - the input of the loca offset model
+    glens: Vec<(u32, u32)>,
+}
+
+/// Length of a glyph after klippa's trimming, computed independently from the raw glyf bytes of the ORIGINAL:
+/// simple glyph = header + endPts + instructionLength [+ instructions] + flags/coordinates up to the last point
+/// (padding dropped); composite = component records [+ instructions]. 0 when the walk fails (klippa then
+/// writes an empty glyph). Returns (with instructions, with NO_HINTING).
+fn subset_glyph_lens(font: &FontRef, gid: u32) -> (u32, u32) {
+    let (Ok(loca), Some(glyf)) = (font.loca(None), font.table_data(Tag::new(b"glyf"))) else { return (0, 0) };
+    let (Some(a), Some(b)) = (loca.get_raw(gid as usize), loca.get_raw(gid as usize + 1)) else { return (0, 0) };
+    let glyf = glyf.as_bytes();
+    if b <= a || b as usize > glyf.len() {
+        return (0, 0);
+    }
+    let d = &glyf[a as usize..b as usize];
+    let u16at = |i: usize| -> Option<usize> { Some(u16::from_be_bytes([*d.get(i)?, *d.get(i + 1)?]) as usize) };
+    let Some(nc) = u16at(0) else { return (0, 0) };
+    let nc = nc as u16 as i16;
+    let r: Option<(usize, usize)> = (|| {
+        if nc >= 0 {
+            let nc = nc as usize;
+            if nc == 0 {
+                return Some((0, 0));
+            }
+            let num_coords = u16at(10 + 2 * (nc - 1))? + 1;
+            let header_len = 10 + 2 * nc + 2;
+            let ins = u16at(10 + 2 * nc)?;
+            let data = d.get(header_len + ins..)?;
+            // flags, then coordinates
+            let (mut i, mut seen, mut coord_bytes) = (0usize, 0usize, 0usize);
+            while i < data.len() {
+                let f = data[i];
+                i += 1;
+                let mut rep = 1usize;
+                if f & 0x08 != 0 {
+                    rep = *data.get(i)? as usize + 1;
+                    i += 1;
+                }
+                let xb = if f & 0x02 != 0 { 1 } else if f & 0x10 == 0 { 2 } else { 0 };
+                let yb = if f & 0x04 != 0 { 1 } else if f & 0x20 == 0 { 2 } else { 0 };
+                coord_bytes += (xb + yb) * rep;
+                seen += rep;
+                if seen >= num_coords {
+                    break;
+                }
+            }
+            if seen != num_coords {
+                return Some((0, 0));
+            }
+            let t = i + coord_bytes;
+            if t == 0 || t > data.len() {
+                return Some((0, 0));
+            }
+            Some((header_len + ins + t, header_len + t))
+        } else {
+            let len = d.len();
+            let (mut i, mut more, mut have_ins) = (10usize, true, false);
+            while more {
+                if i + 3 >= len {
+                    return Some((0, 0));
+                }
+                let fl = u16at(i)?;
+                have_ins |= fl & 0x0100 != 0;
+                i += 4;
+                i += if fl & 0x0001 != 0 { 4 } else { 2 };
+                if fl & 0x0008 != 0 {
+                    i += 2;
+                } else if fl & 0x0040 != 0 {
+                    i += 4;
+                } else if fl & 0x0080 != 0 {
+                    i += 8;
+                }
+                more = fl & 0x0020 != 0;
+            }
+            let nohint = i.min(len);
+            let hint = if have_ins {
+                if i + 1 >= len {
+                    0
+                } else {
+                    (i + 2 + u16at(i)?).min(len)
+                }
+            } else {
+                nohint
+            };
+            Some((hint, nohint))
+        }
+    })();
+    let (h, n) = r.unwrap_or((0, 0));
+    (h as u32, n as u32)
+}
+
+/// the subset's head.indexToLocFormat and its loca entries exactly as stored (u16 or u32 values)
+fn coq_obs_loca(font_id: &str, sub: &[u8]) -> String {
+    let Ok(sf) = FontRef::new(sub) else { return "None".into() };
+    let (Ok(head), Some(loca)) = (sf.head(), sf.table_data(Tag::new(b"loca"))) else { return "None".into() };
+    let fmt = head.index_to_loc_format();
+    let b = loca.as_bytes();
+    let vals: Vec<i128> = if fmt == 0 {
+        b.chunks(2).map(|c| if c.len() == 2 { u16::from_be_bytes([c[0], c[1]]) as i128 } else { -1 }).collect()
+    } else {
+        b.chunks(4).map(|c| if c.len() == 4 { u32::from_be_bytes([c[0], c[1], c[2], c[3]]) as i128 } else { -1 }).collect()
+    };
+    format!("(Some ({}_GLEN, ({}, {})))", font_id, fmt, czlist(vals.into_iter()))
 }
 
 fn h40(b: &[u8]) -> u64 {
@@ -230,7 +335,8 @@ fn abstract_font(font: &FontRef) -> AFont {
         let m: BTreeMap<u32, u32> = l.iter().cloned().collect();
         f4_common.retain(|c, g| m.get(c) == Some(g));
     }
-    AFont { n, glyphs, has_hmtx, long, lsbs, cmap, cmap_ok, uvs, selectors, colr, f4_same, f4_common, hvar: metrics_var(font, b"HVAR", 3), vvar: metrics_var(font, b"VVAR", 4), gvar: gvar_info(font) }
+    let glens = (0..n as u32).map(|g| subset_glyph_lens(font, g)).collect();
+    AFont { n, glyphs, has_hmtx, long, lsbs, cmap, cmap_ok, uvs, selectors, colr, f4_same, f4_common, hvar: metrics_var(font, b"HVAR", 3), vvar: metrics_var(font, b"VVAR", 4), gvar: gvar_info(font), glens }
 }
 
 fn coq_glyph(g: &AG) -> String {
@@ -397,7 +503,7 @@ fn coq_obs_gvar(font_id: &str, af: &AFont, sub: &[u8]) -> String {
     }
 }
 
-fn coq_obs(r: &Result<Vec<u8>, String>, obs: &Option<Obs>, f4_same: bool, mvars: &str, gvar: &str) -> String {
+fn coq_obs(r: &Result<Vec<u8>, String>, obs: &Option<Obs>, f4_same: bool, mvars: &str, gvar: &str, loca: &str) -> String {
     match (r, obs) {
         (Err(e), _) if e.starts_with("panic") => "OPanic".into(),
         (Err(_), _) => "OErr".into(),
@@ -406,7 +512,7 @@ fn coq_obs(r: &Result<Vec<u8>, String>, obs: &Option<Obs>, f4_same: bool, mvars:
             let g = copt(o.glyphs.as_ref().map(|v| clist(v.iter(), |g| coq_glyph(g))));
             let h = copt(o.hmtx.as_ref().map(|(k, v)| format!("({}, {})", k, coq_pairs(v))));
             let c4 = copt(f4_same.then(|| coq_pairs(&o.cmap4)));
-            format!("OOut {} {} {} {} {} {} {} {}", o.num_glyphs, g, h, coq_pairs(&o.cmap), cbool(o.cmap4_multi), c4, mvars, gvar)
+            format!("OOut {} {} {} {} {} {} {} {} {}", o.num_glyphs, g, h, coq_pairs(&o.cmap), cbool(o.cmap4_multi), c4, mvars, gvar, loca)
         }
     }
 }
@@ -1245,6 +1351,8 @@ enum SG {
     Empty,
     Simple(u8),
     Comp(Vec<u16>),
+    /// raw glyph bytes (diagnostic witnesses only)
+    Raw(Vec<u8>),
 }
 #[derive(Clone, Debug)]
 struct Syn {
@@ -1296,6 +1404,7 @@ fn build_syn(s: &Syn) -> Vec<u8> {
             SG::Empty => vec![],
             SG::Simple(v) => simple_bytes(*v),
             SG::Comp(cs) => comp_bytes(cs),
+            SG::Raw(b) => b.clone(),
         };
         glyf.extend_from_slice(&b);
         if glyf.len() % 2 == 1 {
@@ -1776,6 +1885,8 @@ impl Shards {
             write!(def, ".\nDefinition {}_GVAR : list Z := {}", id, czlist((0..af.n as u32).map(|x| g.data(x).len() as i128))).unwrap();
             w += af.n / 4;
         }
+        write!(def, ".\nDefinition {}_GLEN : list (Z * Z) := {}", id, coq_pairs(&af.glens)).unwrap();
+        w += af.n / 4;
         self.fonts.push((id, def, w));
         self.fonts.len() - 1
     }
@@ -1996,7 +2107,30 @@ fn main() {
                 let w = obs.as_ref().map(|o| o.num_glyphs + o.cmap.len() / 4).unwrap_or(1) + req.gids.len() / 4 + req.unis.len() / 4 + 4;
                 let mv = res.as_ref().map(|b| coq_obs_mvars(&format!("font_{}", fi), &af, b)).unwrap_or("[]".into());
                 let gv = res.as_ref().map(|b| coq_obs_gvar(&format!("font_{}", fi), &af, b)).unwrap_or("None".into());
-                sh.push(fi, req, coq_obs(&res, &obs, af.f4_same, &mv, &gv), w);
+                let lc = res.as_ref().map(|b| coq_obs_loca(&format!("font_{}", fi), b)).unwrap_or("None".into());
+                if let Ok(b) = &res {
+                    if let Some(h) = FontRef::new(b).ok().and_then(|f| f.head().ok().map(|h| h.index_to_loc_format())) {
+                        st.count(if h == 0 { "branch.loca_short" } else { "branch.loca_long" });
+                    }
+                }
+                sh.push(fi, req, coq_obs(&res, &obs, af.f4_same, &mv, &gv, &lc), w);
+            } else if (i < model_cases || i >= n_plain) && model_font_ok && !small && !unmodelled_err && !big_font_partial {
+                // a known loca-writer defect fired (u16 offset overflow panic / long format with unpadded data): every
+                // other observation is garbage, but the loca bytes themselves are still predicted by the model
+                let t = match &res {
+                    Ok(b) => {
+                        st.count("branch.loca_long_defect_case");
+                        let l = coq_obs_loca(&format!("font_{}", fi), b);
+                        l.strip_prefix(&format!("(Some (font_{}_GLEN, ", fi)).and_then(|x| x.strip_suffix("))")).map(|x| format!("(Some {})", x))
+                    }
+                    Err(_) => {
+                        st.count("branch.loca_short_u16_overflow_panic");
+                        Some("None".to_string())
+                    }
+                };
+                if let Some(t) = t {
+                    sh.push(fi, req, format!("OLocaOnly font_{}_GLEN {}", fi, t), af.n / 2 + 4);
+                }
             }
             st.sample(json!({"font": name, "request": req.label, "gids": req.gids.iter().take(8).collect::<Vec<_>>(), "unicodes": req.unis.iter().take(8).collect::<Vec<_>>(), "flags": req.flags,
                 "subset_num_glyphs": obs.as_ref().map(|o| o.num_glyphs), "impl": format!("{:?}", res.as_ref().map(|b| b.len()))}));
@@ -2047,6 +2181,32 @@ fn main() {
         let name = format!("{}-{}", if bad { "syn-bad" } else { "syn" }, k);
         run_font(&name, &bytes, 6, 6, &mut st, &mut sh, &mut rng);
     }
+    // diagnostic only (C17_WITNESS_REPEAT=<n>): one simple glyph of n points written with ONE repeated flag and
+    // 16-bit x / y deltas; prints what the subsetter does with it and exits
+    if let Ok(n) = std::env::var("C17_WITNESS_REPEAT") {
+        let n: usize = n.parse().unwrap_or(64);
+        let mut b = vec![];
+        for x in [1i16, 0, 0, 1000, 1000] {
+            b.extend_from_slice(&x.to_be_bytes());
+        }
+        b.extend_from_slice(&((n - 1) as u16).to_be_bytes()); // endPts[0]
+        b.extend_from_slice(&0u16.to_be_bytes()); // instructionLength
+        b.extend_from_slice(&[0x01 | 0x08, (n - 1) as u8]); // on-curve, repeat n-1 more times, 16-bit deltas
+        for k in 0..2 * n {
+            b.extend_from_slice(&(((k % 7) as i16) + 1).to_be_bytes());
+        }
+        let s = Syn { glyphs: vec![SG::Simple(0), SG::Raw(b.clone())], long: vec![(500, 0), (600, 0)], lsbs: vec![], cmap: vec![(0x41, 1)], maxp_glyphs: 2 };
+        let bytes = build_syn(&s);
+        let req = Req { gids: vec![1], unis: vec![], flags: 0, label: "witness" };
+        let res = run_subset(&bytes, &req);
+        eprintln!("WITNESS repeat n={} glyph_len={} result={:?}", n, b.len(), res.as_ref().map(|v| v.len()));
+        if let Ok(v) = &res {
+            let f = FontRef::new(v).unwrap();
+            let l = f.loca(None).unwrap();
+            eprintln!("WITNESS subset loca: {:?} {:?} {:?}; harness expects glyph length {:?}", l.get_raw(0), l.get_raw(1), l.get_raw(2), subset_glyph_lens(&FontRef::new(&bytes).unwrap(), 1));
+        }
+        std::process::exit(0);
+    }
     // 3. F-7 witnesses: deep chain and wide tree
     for (name, s) in [("syn-chain-40", syn_chain(40)), ("syn-chain-64", syn_chain(64)), ("syn-chain-65", syn_chain(65)), ("syn-chain-66", syn_chain(66)), ("syn-chain-70", syn_chain(70)), ("syn-wide-40", syn_wide(40)), ("syn-wide-130", syn_wide(130))] {
         let bytes = build_syn(&s);
@@ -2060,7 +2220,8 @@ fn main() {
             st.evaluations += 1;
             st.count("request.f7-witness");
             let obs = res.as_ref().ok().and_then(|b| observe(b));
-            sh.push(fi, &req, coq_obs(&res, &obs, af.f4_same, "[]", "None"), af.n);
+            let lc = res.as_ref().map(|b| coq_obs_loca(&format!("font_{}", fi), b)).unwrap_or("None".into());
+            sh.push(fi, &req, coq_obs(&res, &obs, af.f4_same, "[]", "None", &lc), af.n);
             oracle(&cx, &req, &res, &mut st, &mut rng, false, 400);
         }
     }
